@@ -50,10 +50,16 @@ type Op struct {
 type Prog struct {
 	Ops []Op
 	Ret string
+	// Close: the handler first closes the session's output (Session.Close), before it
+	// reads or writes anything
+	Close bool
 }
 
 func (p Prog) Enc() string {
 	f := []string{p.Ret}
+	if p.Close {
+		f = append(f, "c")
+	}
 	for _, o := range p.Ops {
 		if o.Read {
 			f = append(f, "r")
@@ -74,6 +80,16 @@ func EncProgs(ps []Prog) string {
 	}
 	return strings.Join(s, "/")
 }
+
+// wrapErr wraps a sentinel the way fmt.Errorf("…: %w", err) does: it is not identical to the
+// sentinel, errors.Is / errors.As find it.
+type wrapErr struct {
+	msg string
+	err error
+}
+
+func (w wrapErr) Error() string { return w.msg + ": " + w.err.Error() }
+func (w wrapErr) Unwrap() error { return w.err }
 
 // ErrHandler is what a program with Ret "fail" returns.
 var ErrHandler = errors.New("verif: handler failed")
@@ -130,6 +146,16 @@ func Exec(p Prog, t xmlstream.TokenReadEncoder, inv *Invocation) error {
 		return stanza.Error{Type: stanza.Cancel, Condition: stanza.BadRequest}
 	case "streamerr":
 		return stream.PolicyViolation
+	case "wrapeof":
+		return wrapErr{"verif: handler ran out of input", io.EOF}
+	case "wrapueof":
+		return wrapErr{"verif: handler short read", io.ErrUnexpectedEOF}
+	case "wrapstanza":
+		return wrapErr{"verif: handler refuses", stanza.Error{Type: stanza.Cancel, Condition: stanza.BadRequest}}
+	case "wrapstream":
+		return wrapErr{"verif: handler gives up", stream.PolicyViolation}
+	case "joineof":
+		return errors.Join(ErrHandler, io.EOF)
 	}
 	return ErrHandler
 }
@@ -203,6 +229,9 @@ func ServeHook(ns string, local, remote jid.JID, body []byte, progs []Prog, mk f
 		}
 		k++
 		res.Invs = append(res.Invs, Invocation{Start: start.Copy()})
+		if p.Close {
+			_ = s.Close()
+		}
 		return Exec(p, t, &res.Invs[len(res.Invs)-1])
 	})
 	var h xmpp.Handler = rec
@@ -232,11 +261,16 @@ func ErrClass(err error) string {
 	var se stream.Error
 	var ste stanza.Error
 	var syn *xml.SyntaxError
+	var we wrapErr
 	switch {
 	case err == nil:
 		return "clean"
 	case errors.As(err, &se):
 		return "se:" + se.Err
+	case errors.As(err, &we):
+		return "handler"
+	case errors.Is(err, xmpp.ErrOutputStreamClosed):
+		return "output-closed"
 	case errors.As(err, &ste):
 		return "handler"
 	case errors.Is(err, ErrHandler), err == io.ErrUnexpectedEOF, strings.Contains(err.Error(), "received IQ with invalid payload"):
